@@ -116,7 +116,7 @@ Proof. induction l1 as [|a l1 IH]; cbn; intros l2 H; [exact H|]. inversion H; su
 
 Lemma c09_from_num_proof : C09_from_num.
 Proof.
-  intros s n W. rewrite blocks_from_num_eq.
+  intros s n W. unfold from_num_spec. rewrite blocks_from_num_eq.
   destruct (has_lib (db s)) eqn:Hl; cbn [negb]; [|intros; discriminate].
   destruct (last_sent s) as [hd|] eqn:Hh; [|intros; discriminate].
   destruct (complete_segment_total (db s) (bref hd)) as [sg [reach E]]; [apply W|].
